@@ -96,8 +96,16 @@ def scan_M(chk, src):
         kind = MEMOISED.get(q)
         if kind is None and q.startswith("typelib.py.inspection.is"):
             kind = IMMUTABLE
-        chk.add(Ob(q, "memoised-function-is-under-a-cache-contract", "ast-scan", [], z3.BoolVal(kind is not None),
-                   {"note": "a memoised function that is not listed in the contract table (new cache?)" if kind is None else kind}))
+        if kind is not None:
+            chk.add(Ob(q, "memoised-function-is-under-a-cache-contract", "ast-scan", [], z3.BoolVal(True), {"note": kind}))
+    # per module (stable clause name): no memoised function without a cache contract - a *new* cache is a violation of the
+    # statement's "caches only ever return what a cold call would" until its key is shown to determine its result
+    by_mod = {}
+    for q in found:
+        by_mod.setdefault(q.rsplit(".", 1)[0] if q.rsplit(".", 1)[0] in set(modules(src)) else q.rsplit(".", 2)[0], []).append(q)
+    for m in sorted(set(modules(src))):
+        missing = [q for q in by_mod.get(m, []) if MEMOISED.get(q) is None and not q.startswith("typelib.py.inspection.is")]
+        chk.add(Ob(m, "every-memoised-function-of-the-module-is-under-a-cache-contract", "ast-scan", [], z3.BoolVal(not missing), {"uncontracted": missing}))
     for q in MEMOISED:
         chk.add(Ob(q, "contracted-memoised-function-still-exists-and-is-memoised", "ast-scan", [], z3.BoolVal(q in found)))
     return found
